@@ -10,6 +10,7 @@ import AnthemModel.Model.Completion
 import AnthemModel.Model.Analyze
 import AnthemModel.Syntax.WireProblem
 import AnthemModel.Model.TptpFmt
+import AnthemModel.Model.External
 import Driver.Search
 open Anthem
 
@@ -138,6 +139,26 @@ def respond (req : Sexp) : Sexp :=
         | some ps => .list (ps.map fun p => .list [.str p.name, .list (p.hygieneIssues.map .atom)])
         | none => .list [.atom "timeout"]
     | _, _, _, _, _, _, _, _ => bad
+  | .list [.atom mode, spec, prog, ug, po, .atom dec, .atom dir, .atom rep, byp, simp, brk, fuel] =>
+    if mode != "external" && mode != "external_text" && mode != "external_hygiene" then bad else
+    match specSideOfSexp spec, Asp.programOfSexp prog, listOf UGEntry.ofSexp ug, listOf SAnn.ofSexp po,
+        Decomposition.ofName dec, Direction.ofName dir, FormulaRep.ofName rep with
+    | some spec, some prog, some ug, some po, some dec, some dir, some rep =>
+      match byp.asBool?, simp.asBool?, brk.asBool?, fuel.asNat? with
+      | some byp, some simp, some brk, some fuel =>
+        let t : ExternalTask := ⟨spec, prog, ug, po, dec, dir, rep, byp, simp, brk⟩
+        match externalProblems t fuel with
+        | .ok ps =>
+          if mode == "external" then .list (ps.map Problem.toSexp)
+          else if mode == "external_hygiene" then
+            .list (ps.map fun p => .list [.str p.name, .list (p.hygieneIssues.map .atom)])
+          else if ps.any Problem.tptpPanics then .list [.atom "panic"]
+          else .list (ps.map fun p => .list [.str p.name, .str p.tptpText])
+        | .err e => .list [.atom "error", .atom e.name]
+        | .panic _ => .list [.atom "panic"]
+        | .timeout => .list [.atom "timeout"]
+      | _, _, _, _ => bad
+    | _, _, _, _, _, _, _ => bad
   | .list [.atom "free_vars", f] =>
     match Formula.ofSexp f with
     | some f => .list (f.fv.map Var.toSexp)
